@@ -264,11 +264,90 @@ def extra_defaults(f, known: Iterable[str]) -> Optional[Dict[str, T]]:
     return out
 
 
+def exact_text(t: T) -> T:
+    """look through text conversions that are exact by construction:
+      * `s if float(s) == v else <shortest round-trip repr of v>` with
+        s = fmt % v  (the formatted text is used only when it parses back to
+        the identical float; np.format_float_positional(v, unique=True) and
+        repr(v) round-trip by definition)  ->  v
+      * [x for x in X] / np.array([x for x in X], dtype=object)  ->  X
+    so that rules about *which* values reach a writer see through them."""
+    def shortest(a: T, v: T) -> bool:
+        if is_call_to(a, "numpy.format_float_positional",
+                      "numpy.format_float_scientific") and a.args[1] and \
+                a.args[1][0] is v:
+            kw = dict(a.args[2])
+            return "precision" not in kw and len(a.args[1]) == 1 and \
+                tm.is_const(kw.get("unique", const(True)), True)
+        return is_call_to(a, "builtins.repr") and len(a.args[1]) == 1 and \
+            a.args[1][0] is v
+
+    def rw(x: T):
+        if x.op == "ite":
+            c, A, B = x.args
+            for (neg, txt, alt) in ((False, B, A), (True, A, B)):
+                # txt: the formatted text, used when the check passed
+                if not (txt.op == "binop" and txt.args[0] == "Mod" and
+                        tm.is_const(txt.args[1])):
+                    continue
+                v = txt.args[2]
+                want = "Eq" if neg else "NotEq"
+                conj = list(c.args) if c.op == ("or" if neg else "and") \
+                    else [c]
+                chk = [a for a in conj if a.op == "cmp" and
+                       a.args[0] == want and any(
+                           is_call_to(f, "builtins.float") and f.args[1] and
+                           f.args[1][0] is txt and o is v
+                           for f, o in ((a.args[1], a.args[2]),
+                                        (a.args[2], a.args[1])))]
+                rest = [a for a in conj if a not in chk]
+                finite = all(
+                    is_call_to(a.args[0] if a.op == "not" else a,
+                               "numpy.isfinite", "math.isfinite")
+                    for a in rest)
+                if chk and finite and shortest(alt, v):
+                    return v
+        if x.op == "comp" and x.args[0] in ("list", "gen") and \
+                len(x.args[2]) == 1 and not x.args[3]:
+            it, lid = x.args[2][0]
+            if x.args[1] is T("elem", it, lid):
+                return it
+        if is_call_to(x, "numpy.array", "numpy.asarray") and \
+                len(x.args[1]) == 1 and dict(x.args[2]).get("dtype") is \
+                tm.glob("builtins.object"):
+            return x.args[1][0]
+        return None
+    prev = None
+    for _ in range(4):
+        if t is prev:
+            break
+        prev = t
+        t = t.map(rw)
+    return t
+
+
+def strip_asarray(t: T) -> T:
+    """np.asarray(a) / np.asarray(a, dtype=float) / np.asanyarray(a) hold the
+    values of a: rules about *which* values are combined look through them"""
+    def rw(z: T):
+        if is_call_to(z, "numpy.asarray", "numpy.asanyarray",
+                      "numpy.asfarray") and len(z.args[1]) == 1:
+            kw = dict(z.args[2])
+            dt = kw.get("dtype")
+            if set(kw) <= {"dtype"} and (dt is None or dt is tm.glob(
+                    "builtins.float") or (dt.op == "global" and dt.args[0] in
+                                          ("numpy.float64", "numpy.double"))):
+                return z.args[1][0]
+        return None
+    return t.map(rw)
+
+
 def step_norms(nrm: T, x: T) -> Optional[bool]:
     """is `nrm` the array of consecutive step lengths |x_k - x_(k+1)| of the
     n x m point array x?  True / False; None if nrm is not a row-norm at all.
     Spellings: norm(x[:-1] - x[1:], axis=1) (either order) and
     norm(np.diff(x, axis=0), axis=1)."""
+    nrm = strip_asarray(nrm)
     if not is_call_to(nrm, "numpy.linalg.norm") or not nrm.args[1]:
         return None
     S1 = T("slice", const(1), tm.NONE, tm.NONE)
